@@ -39,7 +39,8 @@ func ParseAndValidateServerName(serverName ServerName) (host string, port int, v
 			return
 		}
 		ip := host[1 : len(host)-1]
-		if net.ParseIP(ip) == nil {
+		if net.ParseIP(ip) == nil || !strings.Contains(ip, ":") {
+			// only IPv6 literals are written in brackets
 			return
 		}
 		valid = true
@@ -48,7 +49,7 @@ func ParseAndValidateServerName(serverName ServerName) (host string, port int, v
 
 	// try parsing as an IPv4 address
 	ip := net.ParseIP(host)
-	if ip != nil && ip.To4() != nil {
+	if ip != nil && ip.To4() != nil && !strings.Contains(host, ":") {
 		valid = true
 		return
 	}
